@@ -398,6 +398,85 @@ class GInv(GraphBase):
                 "dataset.data": c["ds"].data, "dataset.noise_map": c["ds"].noise_map, "dataset.psf": c["ds"].psf}
 
 
+# ======================================================================================== G-fit
+
+FIT_READS = ["residual_map", "normalized_residual_map", "chi_squared_map", "chi_squared", "reduced_chi_squared", "noise_normalization",
+             "log_likelihood", "log_likelihood_with_regularization", "log_evidence", "figure_of_merit", "residual_flux_fraction_map",
+             "signal_to_noise_map", "model_data", "data", "noise_map"]
+
+_FITCLS = None
+
+
+def _fit_cls(aa):
+    global _FITCLS
+    if _FITCLS is None:
+        class VerifFit(aa.FitImaging):
+            def __init__(self, dataset, model_data, inversion=None, use_mask_in_fit=False, dataset_model=None):
+                super().__init__(dataset=dataset, use_mask_in_fit=use_mask_in_fit, dataset_model=dataset_model)
+                self._model_data = model_data
+                self._inversion = inversion
+
+            @property
+            def model_data(self):
+                return self._model_data
+
+            @property
+            def inversion(self):
+                return self._inversion
+
+        _FITCLS = VerifFit
+    return _FITCLS
+
+
+class GFit(GraphBase):
+    def __init__(self, wt=False, seed=0, with_inversion=True):
+        super().__init__()
+        import autoarray as aa
+
+        self.aa, self.wt, self.seed, self.with_inversion = aa, wt, seed, with_inversion
+        self.name = "fit[%s,%s]" % ("w-tilde" if wt else "mapping", "inversion" if with_inversion else "no-inversion")
+        E = self.ev
+        for k in FIT_READS:
+            E("read fit.%s" % k, (lambda k: lambda c: getattr(c["fit"], k))(k))
+        if with_inversion:
+            for k in ("reconstruction", "curvature_reg_matrix", "regularization_term", "log_det_curvature_reg_matrix_term",
+                      "log_det_regularization_matrix_term", "mapped_reconstructed_data", "curvature_matrix"):
+                E("read fit.inversion.%s" % k, (lambda k: lambda c: getattr(c["fit"].inversion, k))(k))
+        E("read fit.dataset.grids.uniform", lambda c: _arr(c["ds"].grids.uniform))
+        E("read fit.dataset.signal_to_noise_map", lambda c: _arr(c["ds"].signal_to_noise_map))
+        E("construct second fit on same dataset/inversion -> figure_of_merit", lambda c: float(self._fit(c).figure_of_merit))
+
+    def _fit(self, c):
+        return _fit_cls(self.aa)(dataset=c["ds"], model_data=c["model"], inversion=c["inv"], use_mask_in_fit=False,
+                                 dataset_model=self.aa.DatasetModel(background_sky_level=0.3))
+
+    def build(self):
+        aa = self.aa
+        fx = fix_inv.make_dataset([5, 5], [3, 3], 0b101111111, psf_kind="nonneg", seed=self.seed, sub=1)
+        inv = None
+        objs = []
+        if self.with_inversion:
+            objs = [fix_inv.make_obj(fx, "rectA", reg=True, seed=self.seed), fix_inv.make_obj(fx, "func", reg=False, seed=self.seed)]
+            inv = aa.Inversion(dataset=fx["ds"], linear_obj_list=objs, settings=fix_inv.settings(aa, self.wt, diag=1e-3))
+            model = None
+        c = {"fx": fx, "ds": fx["ds"], "inv": inv, "objs": objs}
+        if inv is not None:
+            c["model"] = inv.mapped_reconstructed_data
+            # the model was read on a throw-away inversion so that the graph's own inversion starts with no caches filled
+            c["inv"] = aa.Inversion(dataset=fx["ds"], linear_obj_list=objs, settings=fix_inv.settings(aa, self.wt, diag=1e-3))
+        else:
+            c["model"] = aa.Array2D(values=0.9 * fx["data"] + 0.05, mask=fx["mask"])
+        c["model_in"] = c["model"]
+        c["fit"] = self._fit(c)
+        return c
+
+    def roots(self, c):
+        return {"fit": c["fit"], "ds": c["ds"], "inv": c["inv"], "objs": c["objs"]}
+
+    def inputs(self, c):
+        return {"model_data": c["model_in"], "dataset.data": c["ds"].data, "dataset.noise_map": c["ds"].noise_map}
+
+
 # ======================================================================================== G-defaults
 
 
@@ -488,6 +567,7 @@ def graph_keys(tier, seed):
         for wt in (False, True):
             keys.append(("inv", variant, wt, seed, False))
     keys.append(("inv", "rect", False, seed, True))
+    keys += [("fit", False, seed, True), ("fit", True, seed, True), ("fit", False, seed, False)]
     if tier == "thorough":
         keys += [("struct", seed, 1), ("data", seed, 1)]
     return keys
@@ -496,8 +576,8 @@ def graph_keys(tier, seed):
 def depth_for(key, tier):
     kind = key[0]
     if tier == "quick":
-        return {"struct": 2, "rng": 3, "defaults": 3, "data": 2, "inv": 2}[kind]
-    return {"struct": 3, "rng": 4, "defaults": 4, "data": 3, "inv": 3}[kind]
+        return {"struct": 2, "rng": 3, "defaults": 3, "data": 2, "inv": 2, "fit": 2}[kind]
+    return {"struct": 3, "rng": 4, "defaults": 4, "data": 3, "inv": 3, "fit": 3}[kind]
 
 
 _G = {}
@@ -515,6 +595,8 @@ def graph_for(key):
             _G[key] = GData(seed=key[1], variant=key[2])
         elif kind == "defaults":
             _G[key] = GDefaults(seed=key[1])
+        elif kind == "fit":
+            _G[key] = GFit(wt=key[1], seed=key[2], with_inversion=key[3])
         elif kind == "inv":
             _G[key] = GInv(variant=key[1], wt=key[2], seed=key[3], positive=key[4])
         else:
